@@ -49,7 +49,9 @@ def _(c):
         g = ex.ghost.setdefault('g', {})
         if 'pvals' not in g:
             g['pvals'] = tm.var('ghost_pvals0', tm.ArraySort(INT, REAL))
-        return Arr(g['pvals'], [ex.fresh('pvals_len', INT)], REAL, 'ndarray', 'pvals')
+        a = Arr(g['pvals'], [ex.fresh('pvals_len', INT)], REAL, 'ndarray', 'pvals')
+        a.is_ghost_pvals = True
+        return a
     c.opt(result=res)
     c.modifies()
 
